@@ -32,7 +32,15 @@ def data_layout(P, layout):
     raise ValueError(layout)
 
 
-def body(ctx, conv, shape, bounds, as_coords, layout, nan_cells=None, mesh_opts=None):
+def body(ctx, conv, shape, bounds, as_coords, layout, nan_cells=None, mesh_opts=None, data_first=False):
+    pipeline.builders.DATA_FIRST = data_first
+    try:
+        return _body(ctx, conv, shape, bounds, as_coords, layout, nan_cells, mesh_opts)
+    finally:
+        pipeline.builders.DATA_FIRST = False
+
+
+def _body(ctx, conv, shape, bounds, as_coords, layout, nan_cells=None, mesh_opts=None):
     # build once without data to learn the dimension names, then add the data variable
     probe = {'cf1d': ('y', 'x'), 'cf2d': ('y', 'x'), 'shoc_simple': ('j', 'i'),
              'shoc_standard': ('j_centre', 'i_centre'), 'ugrid': ('nface',)}[conv]
@@ -132,6 +140,11 @@ def cases(tier):
                  ('shoc_simple', (3, 2), 'none', True, 'extra_first', None),
                  ('shoc_standard', (3, 3), 'none', True, 'plain', ((0, 0), (1, 1), (2, 2), (3, 3), (1, 2))),
                  ('shoc_standard', (2, 2), 'none', False, 'plain', None)]
+    # the data variables listed before the geometry variables (variable order in a file is arbitrary)
+    for conv, shape, bounds in (('shoc_simple', (2, 2), 'stored'), ('cf2d', (2, 2), 'stored'), ('cf1d', (2, 3), 'none'), ('shoc_standard', (2, 2), 'none')):
+        yield Case(f'{conv}:{shape[0]}x{shape[1]}:{bounds}:vars:plain:datafirst', body,
+                   dict(conv=conv, shape=shape, bounds=bounds, as_coords=False, layout='plain', nan_cells=(), data_first=True),
+                   patches=P, max_paths=500)
     for c in cfgs:
         conv, shape, bounds, as_coords, layout, nan_cells = c
         nm = 'all' if nan_cells is None else len(nan_cells)
